@@ -7,7 +7,7 @@ use crate::error::{ProtocolError, Result};
 use base64::Engine;
 use cascette_formats::CascFormat;
 use cascette_formats::bpsv::BpsvDocument;
-use mail_parser::{HeaderValue, MessageParser, PartType};
+use mail_parser::{HeaderValue, Message, MessageParser, PartType};
 use sha2::{Digest, Sha256};
 use tracing::{debug, trace};
 
@@ -58,8 +58,7 @@ pub fn parse_v1_mime_response(raw_response: &[u8]) -> Result<V1MimeResponse> {
     }
 
     // Parse the MIME message (without checksum epilogue)
-    let message = MessageParser::default()
-        .parse(message_data)
+    let message = parse_message(message_data)
         .ok_or_else(|| ProtocolError::Parse("Failed to parse MIME message".to_string()))?;
 
     trace!(
@@ -177,6 +176,50 @@ pub fn parse_v1_mime_response(raw_response: &[u8]) -> Result<V1MimeResponse> {
         signature: signature_content,
         checksum,
     })
+}
+
+/// Deepest `message/rfc822` nesting accepted in a V1 response (real responses have none).
+const MAX_MESSAGE_NESTING: usize = 16;
+
+/// Parse a MIME message, refusing one whose `message/rfc822` parts nest too deeply.
+///
+/// `mail_parser` keeps such a part as a nested `Message`, so dropping a parsed
+/// chain of them recurses once per level: a reply of a few hundred KB made of
+/// `Content-Type: message/rfc822` headers overflows the stack when the value is
+/// dropped. A chain beyond the limit is taken apart level by level instead and
+/// reported as a parse failure.
+pub(crate) fn parse_message(data: &[u8]) -> Option<Message<'_>> {
+    let message = MessageParser::default().parse(data)?;
+
+    if !nesting_exceeds(&message, MAX_MESSAGE_NESTING) {
+        return Some(message);
+    }
+
+    let mut pending = vec![message];
+    while let Some(mut outer) = pending.pop() {
+        for part in &mut outer.parts {
+            if let PartType::Message(inner) = std::mem::take(&mut part.body) {
+                pending.push(inner);
+            }
+        }
+    }
+    None
+}
+
+/// Whether any `message/rfc822` part sits more than `limit` messages deep.
+fn nesting_exceeds(message: &Message<'_>, limit: usize) -> bool {
+    let mut pending = vec![(message, 0usize)];
+    while let Some((outer, depth)) = pending.pop() {
+        if depth > limit {
+            return true;
+        }
+        for part in &outer.parts {
+            if let PartType::Message(inner) = &part.body {
+                pending.push((inner, depth + 1));
+            }
+        }
+    }
+    false
 }
 
 /// Extract checksum from the epilogue of a V1 response
